@@ -21,7 +21,8 @@ RULE = ('A real Crazyflie is connected (deterministic scheduler, virtual time) t
         'no transmission during a rejected add_config; independent decoding of the create/append messages (firmware rule (len-2)//3 items '
         'per message); per-packet timestamp/value equality with an independent decoder (numpy float16 for FP16); flags vs device block '
         'state; variable list before/after re-add. Non-trivial = >= 10 variables (multi-message), payload within 2 bytes of 26, a '
-        'rejected configuration, or a re-add.')
+        'rejected configuration, or a re-add. Directed: payloads of exactly 24 / 25 / 26 bytes with data flowing; the log table may be renumbered '
+        'between the two sessions of a re-add (the create messages of the second session are decoded against the new numbering).')
 ASSUMPTIONS = ['block-creation messages are decoded for protocol >= 4 only; legacy protocol is exercised only where the block fits one packet',
                'periods of 2541..2549 ms are left unconstrained', 'variable names within one configuration are unique',
                'flags are compared with the device block state within one session only (the device forgets blocks on reconnect)']
